@@ -569,3 +569,153 @@ impl<'x, N: Copy + Eq + Hash + std::fmt::Debug> View<'x, N> {
         View::new(a, (0..a.n).collect(), ids)
     }
 }
+
+// ------------------------------------------------------------------------------------------------
+// enumeration of all small labelled graphs (bounded-exhaustive sub-checks)
+
+/// selector that `pick(sel, n)` maps to `u`
+pub fn sel_for(u: usize, n: usize) -> u16 {
+    (((u << 16) + n - 1) / n) as u16
+}
+
+/// The labelled graph on `n` nodes whose edge set is given by `mask`: directed, bit u*n+v = edge
+/// u->v (loops included); undirected, bit k = k-th pair u<=v in row order (loops included).
+/// Expressed as a `RawGraph` of shape 0 (so it runs through the ordinary case types); the weight
+/// byte of edge k is taken from `wseed`.
+pub fn raw_explicit(directed: bool, n: usize, mask: u64, wseed: u8) -> RawGraph {
+    let mut edges = Vec::new();
+    let mut bit = 0;
+    for u in 0..n {
+        for v in (if directed { 0 } else { u })..n {
+            if (mask >> bit) & 1 == 1 {
+                let k = edges.len() as u8;
+                edges.push((sel_for(u, n), sel_for(v, n), wseed.wrapping_mul(k.wrapping_add(1)).wrapping_add(k.wrapping_mul(67))));
+            }
+            bit += 1;
+        }
+    }
+    RawGraph { directed, shape: 0, n: n as u8, k: 0, keys: vec![0; n], edges }
+}
+
+/// Segments of the enumeration of all labelled graphs: directed on 1..=dmax nodes, undirected on
+/// 1..=umax nodes.  Returns (directed, n, mask) of graph `i`, or None beyond the end.
+pub fn small_graph(i: u64, dmax: usize, umax: usize) -> Option<(bool, usize, u64)> {
+    let mut i = i;
+    for n in 1..=dmax {
+        let c = 1u64 << (n * n);
+        if i < c {
+            return Some((true, n, i));
+        }
+        i -= c;
+    }
+    for n in 1..=umax {
+        let c = 1u64 << (n * (n + 1) / 2);
+        if i < c {
+            return Some((false, n, i));
+        }
+        i -= c;
+    }
+    None
+}
+
+pub fn small_graph_count(dmax: usize, umax: usize) -> u64 {
+    (1..=dmax).map(|n| 1u64 << (n * n)).sum::<u64>() + (1..=umax).map(|n| 1u64 << (n * (n + 1) / 2)).sum::<u64>()
+}
+
+/// Loop-free labelled digraph on `n` nodes: bit k of `mask` = k-th ordered pair (u, v), u != v, in row order.
+pub fn raw_explicit_loopless(n: usize, mask: u64, wseed: u8) -> RawGraph {
+    let mut edges = Vec::new();
+    let mut bit = 0;
+    for u in 0..n {
+        for v in 0..n {
+            if u == v {
+                continue;
+            }
+            if (mask >> bit) & 1 == 1 {
+                let k = edges.len() as u8;
+                edges.push((sel_for(u, n), sel_for(v, n), wseed.wrapping_mul(k.wrapping_add(1)).wrapping_add(k.wrapping_mul(67))));
+            }
+            bit += 1;
+        }
+    }
+    RawGraph { directed: true, shape: 0, n: n as u8, k: 0, keys: vec![0; n], edges }
+}
+
+/// Loop-free labelled undirected graph on `n` nodes: bit k of `mask` = k-th pair u<v in row order.
+pub fn raw_explicit_und_loopless(n: usize, mask: u64, wseed: u8) -> RawGraph {
+    let mut edges = Vec::new();
+    let mut bit = 0;
+    for u in 0..n {
+        for v in (u + 1)..n {
+            if (mask >> bit) & 1 == 1 {
+                let k = edges.len() as u8;
+                edges.push((sel_for(u, n), sel_for(v, n), wseed.wrapping_mul(k.wrapping_add(1)).wrapping_add(k.wrapping_mul(67))));
+            }
+            bit += 1;
+        }
+    }
+    RawGraph { directed: false, shape: 0, n: n as u8, k: 0, keys: vec![0; n], edges }
+}
+
+/// all loop-free labelled undirected graphs on 1..=nmax nodes: (n, mask) of graph `i`
+pub fn small_simple_und(i: u64, nmax: usize) -> Option<(usize, u64)> {
+    let mut i = i;
+    for n in 1..=nmax {
+        let c = 1u64 << (n * (n - 1) / 2);
+        if i < c {
+            return Some((n, i));
+        }
+        i -= c;
+    }
+    None
+}
+
+pub fn small_simple_und_count(nmax: usize) -> u64 {
+    (1..=nmax).map(|n| 1u64 << (n * (n - 1) / 2)).sum()
+}
+
+/// Labelled graph with weights from three levels: digit k (base 4) of `code` describes the k-th
+/// node pair (row order; ordered pairs incl. loops when directed, pairs u<=v otherwise): 0 = no
+/// edge, d = an edge whose weight byte is `levels[d-1]`.  There are 4^(number of pairs) codes.
+pub fn raw_quaternary(directed: bool, n: usize, code: u64, levels: [u8; 3]) -> RawGraph {
+    let mut edges = Vec::new();
+    let mut c = code;
+    for u in 0..n {
+        for v in (if directed { 0 } else { u })..n {
+            let d = (c % 4) as usize;
+            c /= 4;
+            if d > 0 {
+                edges.push((sel_for(u, n), sel_for(v, n), levels[d - 1]));
+            }
+        }
+    }
+    RawGraph { directed, shape: 0, n: n as u8, k: 0, keys: vec![0; n], edges }
+}
+
+/// number of pairs of `raw_quaternary`
+pub fn pair_count(directed: bool, n: usize) -> usize {
+    if directed {
+        n * n
+    } else {
+        n * (n + 1) / 2
+    }
+}
+
+/// all weighted small graphs: directed on 1..=dmax nodes, then undirected on 1..=umax nodes
+pub fn small_weighted(i: u64, dmax: usize, umax: usize) -> Option<(bool, usize, u64)> {
+    let mut i = i;
+    for (dir, max) in [(true, dmax), (false, umax)] {
+        for n in 1..=max {
+            let c = 1u64 << (2 * pair_count(dir, n));
+            if i < c {
+                return Some((dir, n, i));
+            }
+            i -= c;
+        }
+    }
+    None
+}
+
+pub fn small_weighted_count(dmax: usize, umax: usize) -> u64 {
+    (1..=dmax).map(|n| 1u64 << (2 * pair_count(true, n))).sum::<u64>() + (1..=umax).map(|n| 1u64 << (2 * pair_count(false, n))).sum::<u64>()
+}
